@@ -42,8 +42,14 @@ def _make_family():
     for base in BASES:
         b = base.__name__
         fam = []
-        for variant in ('Plain', 'Repr', 'Str', 'Both', 'Nested'):
+        for variant in ('Plain', 'Repr', 'Str', 'Both', 'Nested', 'Ducky', 'Ducky2'):
             ns = {'__module__': __name__}
+            if variant == 'Ducky':
+                # class attributes that OTHER protocols look for (namedtuple, struct sequence, enum, attrs, pytz): an ordinary subclass that
+                # happens to carry them is still an ordinary subclass
+                ns.update({'_fields': ('a', 'b'), '_name_': 'N', '_value_': 0, 'zone': 'UTC', '__attrs_attrs__': (), '_field_defaults': {}})
+            if variant == 'Ducky2':
+                ns.update({'n_fields': 2, 'n_sequence_fields': 2, 'n_unnamed_fields': 0, '_fields': ('a',), '__match_args__': ('a', 'b')})
             if variant in ('Repr', 'Both'):
                 ns['__repr__'] = _repr_override(base)
             if variant in ('Str', 'Both'):
